@@ -325,6 +325,20 @@ func gstmt(s ast.Stmt) string {
 				}
 			}
 		}
+		// `for _, v := range X` over a slice, in the functions listed in gstmtValueRange: the same
+		// counted loop, with `v` bound to the leaf `X[#i]` at the head of every round
+		if vid, ok := x.Value.(*ast.Ident); ok && gstmtValueRange[gstmtCur] {
+			if kid, isId := x.Key.(*ast.Ident); x.Key == nil || (isId && kid.Name == "_") {
+				if t := info.TypeOf(x.X); t != nil {
+					if _, isSlice := t.Underlying().(*types.Slice); isSlice {
+						n := leanStr("#len(" + srcText(x.X) + ")")
+						i := leanStr("#i")
+						return fmt.Sprintf("(.seq (.assign %s (.var %s .int)) (.seq (.assign %s (.lit 0 .int)) (.loop (.ite (.cmp \"<\" (.var %s .int) (.var %s .int)) (.seq (.assign %s (.var %s %s)) (.seq %s (.assign %s (.bin \"+\" .int (.var %s .int) (.lit 1 .int))))) .brk))))",
+							n, leanStr("len("+srcText(x.X)+")"), i, i, n, leanStr(vid.Name), leanStr(srcText(x.X)+"[#i]"), gty(info.TypeOf(vid)), rangeBody(x.Body), i, i)
+					}
+				}
+			}
+		}
 		return fmt.Sprintf("(.opaque %s)", leanStr("range "+srcText(x.X)))
 	case *ast.GoStmt:
 		var args []string
@@ -430,6 +444,7 @@ var gstmtFuncs = map[string]bool{
 
 var gstmtParams = map[string][]string{}
 var gstmtCur string
+var gstmtValueRange = map[string]bool{"ModbusServer.Stop": true}
 var gstmtTypedAppend = map[string]bool{"decodeBools": true, "encodeBools": true, "bytesToUint16s": true, "uint16sToBytes": true}
 
 func collectGStmt(fn string, fd *ast.FuncDecl, out map[string]string) {
